@@ -81,6 +81,7 @@ var ops = []struct{ Method, Path, ID string }{
 	{"POST", "/s", "opS"},
 	{"GET", "/s", "opSG"},
 	{"PUT", "/s/t", "opT"},
+	{"POST", "/w/{id}", "opW"}, // consumes a media range; a consumer is registered under the range itself
 }
 
 func specDoc() json.RawMessage {
@@ -126,6 +127,11 @@ func specDoc() json.RawMessage {
 				"get":  mk("opSG", []M{q, n}, false, []M{k2, oaR, {}}),
 			},
 			"/s/t": M{"put": mk("opT", []M{q, body}, true, []M{both, k1})},
+			"/w/{id}": M{"post": func() M {
+				op := mk("opW", []M{pid, q, body}, true, []M{k1, {}})
+				op["consumes"] = []string{"application/*"}
+				return op
+			}()},
 		}}
 	raw, _ := json.Marshal(spec)
 	return raw
@@ -201,6 +207,7 @@ func buildWorld(nAuth, nCons, nProd, nHand int) (*world, error) {
 	}
 	api.RegisterConsumer("application/json", mkCons("json"))
 	api.RegisterConsumer("application/x-alt", mkCons("alt"))
+	api.RegisterConsumer("application/*", mkCons("range"))
 	api.RegisterProducer("application/json", mkProd("json"))
 	api.RegisterProducer("application/x-alt", mkProd("alt"))
 	mkAuth := func(scheme string) func(string) (interface{}, error) {
@@ -314,7 +321,11 @@ func (r Req) build(token string) *http.Request {
 	}
 	req, _ := http.NewRequest(o.Method, "http://example.test"+target, body)
 	if body != nil && r.CT != "" {
-		req.Header.Set("Content-Type", r.CT)
+		ct := r.CT
+		if ct == "range" {
+			ct = "application/w-" + token // a type of its own per request, covered only by a media range
+		}
+		req.Header.Set("Content-Type", ct)
 	}
 	if r.Accept != "" {
 		req.Header.Set("Accept", r.Accept)
